@@ -54,12 +54,28 @@ Record pbuf := mkPbuf { pb_data : str; pb_pad : N }.
 Definition pb_len (b : pbuf) : N := lenN (pb_data b) + pb_pad b.
 Definition pb_bytes (b : pbuf) : str := pb_data b ++ repeat 0 (N.to_nat (pb_pad b)).
 
-Definition read_bytes (n : N) (s : str) : pbuf * str * rerr :=
-  if n <=? lenN s then (mkPbuf (firstn (N.to_nat n) s) 0, skipn (N.to_nat n) s, ENone)
+(* the first n bytes of s and the rest, when s has that many (n counts down in binary: a 4 GiB
+   request costs at most a walk over s) *)
+Fixpoint take (n : N) (s : str) {struct s} : option (str * str) :=
+  if n =? 0 then Some ([], s)
   else match s with
-       | [] => (mkPbuf [] n, [], EEOF)
-       | _ :: _ => (mkPbuf s (n - lenN s), [], EUnexp)
+       | [] => None
+       | c :: r =>
+           match take (n - 1) r with
+           | Some (a, b) => Some (c :: a, b)
+           | None => None
+           end
        end.
+
+Definition read_bytes (n : N) (s : str) : pbuf * str * rerr :=
+  match take n s with
+  | Some (a, r) => (mkPbuf a 0, r, ENone)
+  | None =>
+      match s with
+      | [] => (mkPbuf [] n, [], EEOF)
+      | _ :: _ => (mkPbuf s (n - lenN s), [], EUnexp)
+      end
+  end.
 
 (* ------------------------------------------------------------------ dbin header *)
 
